@@ -77,6 +77,37 @@ def handlePath (s : DState) (toks : List String) : Option Out :=
       | _, _ => none
     | none, some _, some _, some _ => some (s, ["noslot"])
     | _, _, _, _ => none
+  | ["setmod", slot, v] =>
+    -- `set_default_modifier` (`def`) / `*modifier_mut() = ids.into()`, in place on the slot
+    match slot.toNat? with
+    | none => none
+    | some n =>
+      match s.slot n with
+      | none => some (s, ["noslot"])
+      | some o =>
+        if v = "def" then
+          match o.defaultModifier with
+          | .ok md => some (s.setSlot n { o with modifier := md }, ["r ok"])
+          | _ => some (s, ["r err"])
+        else
+          match parseIds v with
+          | some l => some (s.setSlot n { o with modifier := Group.ofList l }, ["r ok"])
+          | none => none
+  | ["setcat", slot, v] =>
+    match slot.toNat? with
+    | none => none
+    | some n =>
+      match s.slot n with
+      | none => some (s, ["noslot"])
+      | some o =>
+        if v = "def" then
+          match o.defaultCategories with
+          | .ok c => some (s.setSlot n { o with categories := c }, ["r ok"])
+          | _ => some (s, ["r err"])
+        else
+          match parseIds v with
+          | some l => some (s.setSlot n { o with categories := Group.ofList l }, ["r ok"])
+          | none => none
   | ["oracle", "sub", src, root, leaves] =>   -- harness-side oracle; same op validity as `sub`
     match src.toNat?, root.toNat?, parseIds leaves with
     | some n, some r, some ls =>
